@@ -8,10 +8,11 @@ VERIF = os.path.dirname(os.path.dirname(os.path.abspath(__file__)))
 
 
 def write(pid, tier, seed, level, coverage, wall, violations, assumptions):
-    os.makedirs(os.path.join(VERIF, "evidence"), exist_ok=True)
+    edir = os.environ.get("VERIF_EVIDENCE_DIR") or os.path.join(VERIF, "evidence")   # self-tests redirect it
+    os.makedirs(edir, exist_ok=True)
     doc = {"property_id": pid, "tier": tier, "seed": int(seed), "level": level, "coverage": coverage,
            "assumptions": assumptions, "wall_s": round(wall, 2), "violations": int(violations)}
-    path = os.path.join(VERIF, "evidence", f"{pid}.json")
+    path = os.path.join(edir, f"{pid}.json")
     tmp = path + ".tmp"
     with open(tmp, "w") as f:
         json.dump(doc, f, indent=1, ensure_ascii=False)
